@@ -13,7 +13,7 @@ structure Buf where
   cur : Option Nat        -- index of the cursor node in `items`; `none` = nil cursor
   cap : Nat
   shut : Bool
-deriving Repr, DecidableEq
+deriving Repr, DecidableEq, Hashable
 
 def Buf.new (cap : Nat) : Buf := { items := [], cur := none, cap := cap, shut := false }
 
@@ -46,7 +46,7 @@ def Buf.remove (b : Buf) : Buf × Option Op :=
 
 inductive EnqRes where
   | ok | full | shutdown | wouldBlock
-deriving Repr, DecidableEq
+deriving Repr, DecidableEq, Hashable
 
 /-- one attempt of `enqueue(op, errorOnFull)` under the lock: `wouldBlock` = the caller goes into `notFull.Wait()` -/
 def Buf.enqueue (b : Buf) (op : Op) (errorOnFull : Bool) : Buf × EnqRes :=
@@ -65,7 +65,7 @@ structure BufM where
   waiting : List (Nat × Op)     -- callers inside `notFull.Wait()`, oldest first
   woken : List (Nat × Op)       -- callers signalled, about to re-acquire the lock and re-check
   returned : List (Nat × EnqRes)
-deriving Repr, DecidableEq
+deriving Repr, DecidableEq, Hashable
 
 inductive BufLabel where
   | enq (k : Nat) (op : Op) (errorOnFull : Bool)   -- a new Enqueue call reaches the buffer
